@@ -35,7 +35,18 @@ pub struct Model {
     pub index: Option<std::collections::HashMap<S, usize>>,
 }
 
-#[derive(Clone, Copy, PartialEq, Eq, Hash, Debug)]
+impl std::hash::Hash for MFrame<'_> {
+    fn hash<H: std::hash::Hasher>(&self, h: &mut H) {
+        use crate::subj::hash_str;
+        hash_str(self.class, h);
+        hash_str(self.method, h);
+        self.line.hash(h);
+        hash_str(self.file.unwrap_or("\u{0}none"), h);
+        hash_str(self.params.unwrap_or("\u{0}none"), h);
+    }
+}
+
+#[derive(Clone, Copy, PartialEq, Eq, Debug)]
 pub struct MFrame<'a> {
     pub class: &'a str,
     pub method: &'a str,
